@@ -111,6 +111,9 @@ type World struct {
 	mEvCacheH     uint64
 	FaultsStoppedAt int64
 	pend          map[string][2]uint64
+	preEndBal     map[string]sdk.Int
+	booting       bool
+	ByzVals       map[string]bool
 	BlockEvents   []abci.Event // begin+end block events of the current block (replica 0)
 }
 
@@ -166,7 +169,7 @@ func holderValue(tier int) sdk.Int {
 func NewWorld(cfg Config, oracles []Oracle, logOn bool) (*World, error) {
 	hub.Setup()
 	w := &World{Cfg: cfg, Eth: map[string]*ext.Eth{}, Extra: map[string]*hub.Account{}, Stalled: map[string]bool{}, extMsAcc: map[string]uint64{},
-		Oracles: oracles, LogOn: logOn, KeysSet: map[string]bool{},
+		Oracles: oracles, LogOn: logOn, KeysSet: map[string]bool{}, ByzVals: map[string]bool{},
 		St: NewStats(), GenesisSupply: map[string]sdk.Int{}, Liquidity0: map[string]*big.Rat{}, ColdExec: map[string]*big.Rat{}}
 	w.Now = time.Unix(1_700_000_000, 0).UTC()
 
@@ -309,7 +312,9 @@ func NewWorld(cfg Config, oracles []Oracle, logOn bool) (*World, error) {
 // the external models with exactly that set, as solidity/get-valset and the deploy script do.
 func (w *World) bootstrap(totalFunds map[string]sdk.Int) error {
 	cfg := w.Cfg
+	w.booting = true
 	w.ProduceBlock(5, nil)
+	w.booting = false
 	if w.Crash != nil {
 		return fmt.Errorf("bootstrap block: %v", w.Crash)
 	}
@@ -380,3 +385,5 @@ func mustUint(s string) uint64 {
 	return v
 }
 
+
+func TempAddr() sdk.AccAddress { return mhub2types.TempAddress }
